@@ -34,6 +34,9 @@ const (
 	kTokShared = "copy:deepcopy-shares-tokens-map"
 	// flat key-value mode: there is one mutable store under all instances; wrappedTrie.TryGet reads it directly.
 	kKVCommit = "flat-kv:commit-visible-in-live-copies"
+	// flat key-value mode: what Finalise wrote (wrappedTrie.updates) is invisible to TryGet and dropped by CopyTrie
+	// until a Commit flushes it, so a state that is used on after IntermediateRoot misreads evicted accounts.
+	kKVPending = "flat-kv:finalised-uncommitted-writes-invisible"
 )
 
 func TestMain(m *testing.M) {
@@ -687,7 +690,7 @@ type machine struct {
 	hist    []string
 	nCopies int
 
-	knownTok, knownKV bool
+	knownTok, knownKV, knownKVPending bool
 
 	// classification
 	maxDepth, maxNest, reverts, commits, irs int
@@ -901,6 +904,7 @@ func runMachine(t *rapid.T, mode int) {
 	vstat.Eval()
 	mc := &machine{t: t, mode: mode}
 	mc.knownTok, mc.knownKV = vstat.IsKnown(P, kTokShared), vstat.IsKnown(P, kKVCommit)
+	mc.knownKVPending = vstat.IsKnown(P, kKVPending)
 	mc.flag = rapid.IntRange(0, 4).Draw(t, "deleteEmpty") < 2
 	cache := 0
 	if mode != modeCaching && rapid.IntRange(0, 5).Draw(t, "cache") == 0 {
@@ -1005,9 +1009,11 @@ func runMachine(t *rapid.T, mode int) {
 			ok = born != nil
 		case "ir": // in flat-KV histories "ir" therefore reads: IntermediateRoot, Commit, reopen
 			ok = irBoth(x, o)
-			// flat-KV reads go to the disk and ignore pending (finalised, uncommitted) writes; the application
-			// never touches a state between IntermediateRoot and Commit, and neither does this generator
-			if ok && x.w.kv() {
+			// flat-KV reads go to the disk and ignore pending (finalised, uncommitted) writes (kKVPending); the
+			// application never touches a state between IntermediateRoot and Commit, and while that finding is
+			// listed neither does this generator
+			if ok && x.w.kv() && mc.knownKVPending {
+				vstat.Excluded(kKVPending)
 				o.Kind, o.S = "commit", 0
 				ok = commitBoth(x, o)
 			}
@@ -1158,5 +1164,28 @@ func TestRegressionFlatKVCommitLeak(t *testing.T) {
 	}
 	if got := c.GetBalance(b); got.Sign() != 0 {
 		vstat.Violation(t, P, "copy-not-independent:GetBalance", "trie mode: the copy reads balance %v after the original committed, want 0", got)
+	}
+}
+
+// TestRegressionFlatKVPendingWrites keeps kKVPending observed: in flat key-value mode a snapshot/revert pair that
+// evicts an account object after a mid-block IntermediateRoot brings back the account's last COMMITTED record.
+func TestRegressionFlatKVPendingWrites(t *testing.T) {
+	vstat.Eval()
+	a := addrs[2]
+	s := freshState(t, modeFlatKV)
+	s.AddBalance(a, big.NewInt(5))
+	if _, err := s.Commit(false, 1); err != nil {
+		t.Fatalf("Commit: %v", err)
+	}
+	s.Reset(common.EmptyHash)
+	s.Suicide(a)
+	s.IntermediateRoot(false) // the account is deleted; the deletion waits in wrappedTrie.updates
+	existed := s.Exist(a)
+	id := s.Snapshot()
+	s.AddBalance(a, big.NewInt(1)) // createObject: journalled as createObjectChange
+	s.RevertToSnapshot(id)         // evicts the object: the next read goes to the disk, which still has balance 5
+	vstat.NonTrivial("regression-flatkv-pending-writes")
+	if got := s.Exist(a); got != existed {
+		vstat.Violation(t, P, kKVPending, "flat-KV: AddBalance(a,5); Commit; Suicide(a); IntermediateRoot; Snapshot; AddBalance(a,1); RevertToSnapshot: Exist(a)=%v balance %v, at the snapshot Exist(a)=%v", got, s.GetBalance(a), existed)
 	}
 }
